@@ -933,7 +933,13 @@ func splitInlineBox(context *layoutContext, box_ Box, positionX, maxX, bottomSpa
 
 			marginWidth := newChild.Box().MarginWidth()
 			newPositionX := newChild.Box().PositionX + marginWidth
-			if newPositionX > maxX && !trailingWhitespace {
+			limitX := maxX
+			if lastChild && resumeAt == nil {
+				// the box ends on this line: its end margin, border and padding
+				// must fit too
+				limitX -= endSpacing
+			}
+			if newPositionX > limitX && !trailingWhitespace {
 				previousResumeAt := breakWaitingChildren(context, box_, bottomSpace, initialSkipStack, absoluteBoxes, fixedBoxes,
 					linePlaceholders, waitingFloats, lineChildren, &children, waitingChildren)
 				if previousResumeAt != nil {
